@@ -121,6 +121,7 @@ pub struct Node {
 impl Node {
     pub fn new(chain: &SimChain, last_n: u64) -> Node {
         let env = Env::with_consensus(chain.consensus.clone(), 3, 2000);
+        env.storage.update_min_filtered_block_number(RB_SENTINEL);
         let mut lc = env.protocol();
         lc.verif_set_last_n_blocks(last_n);
         let abs = Abs::new(&chain.consensus, lc.mmr_activated_epoch());
@@ -183,6 +184,11 @@ impl Node {
 
     /// canonical dump of the trusted state, same format as `Prove.showSt`
     pub fn dump(&mut self) -> String {
+        self.dump_inner(true)
+    }
+
+    /// `consume`: forget the observed `rollback_to_block` call (park the sentinel again)
+    pub fn dump_inner(&mut self, consume: bool) -> String {
         let (td, tip) = self.env.storage.get_last_state();
         let tip_hid = self.abs.hid(&tip.calc_header_hash());
         let last_n: Vec<String> = self
@@ -247,23 +253,40 @@ impl Node {
                 lh
             ));
         }
+        // `rollback_to_block(n)` leaves `n - 1` in the min filtered number (parked at a sentinel)
+        let min_f = self.env.storage.get_min_filtered_block_number();
+        if std::env::var("VERIF_DEBUG_RB").is_ok() {
+            eprintln!("dump: minF {} scripts {}", min_f, self.env.storage.get_filter_scripts().len());
+        }
+        let rb = if min_f == RB_SENTINEL {
+            String::new()
+        } else {
+            if consume {
+                self.env.storage.update_min_filtered_block_number(RB_SENTINEL);
+            }
+            format!("{}", min_f + 1)
+        };
         format!(
-            "stored td={} tip={} lastN=[{}] peers {}",
+            "stored td={} tip={} lastN=[{}] rb=[{}] peers {}",
             dec(&td),
             tip_hid,
             last_n.join(", "),
+            rb,
             peers.join(" ")
         )
     }
 }
 
+/// where the min filtered block number is parked to observe `rollback_to_block` calls
+pub const RB_SENTINEL: u64 = u64::MAX / 4;
+
 /// the trusted state for the property oracles (C01/C12): per-peer prove state + stored values
 fn trusted(node: &mut Node) -> String {
-    let d = node.dump();
+    let d = node.dump_inner(false);
     // strip the untrusted parts: last state announcements and outstanding requests
     let mut out = String::new();
     for tok in d.split(' ') {
-        if tok.starts_with("ls=") || tok.starts_with("rq=") {
+        if tok.starts_with("ls=") || tok.starts_with("rq=") || tok.starts_with("rb=") {
             continue;
         }
         // state kinds change with requests; keep only proof-bearing information
